@@ -474,6 +474,11 @@ class C11(PropBase):
             "duplicates, zero sizes, top of the address space), deep inline chains (10..70 levels, missing levels, disconnected records at depth 2^31 / u32::MAX), "
             "files with 10..40 FUNCs and up to 20 PUBLICs; module bases 0, 0x1000, 2^63, 2^64-1-k; the measured distribution (records per kind, overlap classes, "
             "inline depth, PUBLIC/FUNC adjacency, where the queries fall) is in input_distribution.measured. "
+            "Round 5: 1 file in 6 has payload fields (parameter sizes, line numbers, call lines) at 0 / 2^31 / u32::MAX; 1 file in 5 is spelled in another text style "
+            "(CRLF line ends, upper-case hex, a leading zero on hex fields: item Y, rendered identically by the harness and by the model's own renderer); every file is "
+            "additionally re-parsed by the harness as two twins (INLINE ranges of each FUNC block permuted; FILE / INLINE_ORIGIN lines moved to the end) whose tables and "
+            "callbacks must be identical (field X, oracle only); the extracted model answers every case twice, from the records and from the text (C09's recogniser + finish), "
+            "and both must agree with the real code. "
             "Non-trivial = some query reports a function together with a source line or inline frame; distinct = distinct case lines")
     trusted_base = [
         "Coq 8.16.1 kernel (vm_compute only in the non-vacuity Examples)",
